@@ -90,6 +90,13 @@ def main():
             chk.violation({"law": "quantifier = fold of unrolled bodies", "group": {k: v for k, v in g.items() if k != "info"}, "info": g["info"]})
         for s in summ["samples"][:2]:
             chk.sample(s)
+        if wn == "records":
+            # the code-shaped small-step machine refines the reference semantics and keeps scoping / order invariants
+            ex = []
+            for c in colls[:(24 if quick else 120)]:
+                for bdy in BODIES[:: (3 if quick else 1)]:
+                    ex.append({"t": "coll", "op": c["op"], "sel": c["sel"], "mode": c["mode"], "n1": c["n1"], "n2": c["n2"], "e": bdy})
+            vlib.run_machine(chk, "c06-machine", data["docs"], data["cfgs"], cfgsel, ex)
     chk.cov["distinct_nontrivial"] = nontrivial
     chk.notes["groups_by_collection_length"] = {str(k): v for k, v in sorted(lens.items())}
     chk.notes["rule"] = ("quantifier shells (any/all x four binding modes) over every structural path up to depth 3 (lists, arrays, "
